@@ -494,7 +494,22 @@ theorem loadConfig_toArray (fl : Rat → Rat) (hfl : ∀ x, |fl x - x| ≤ |x| /
     rw [srr_roundtrip fl hfl c hok]
     rfl
 
-theorem data_roundtrip (L : Laser) (h : layersOk L.kind L.layers = true) :
+theorem nativeDtype_of_native (d : Str) (h : isNativeDtype d = true) : nativeDtype d = d := by
+  unfold nativeDtype
+  split
+  · simp [isNativeDtype] at h
+  · rfl
+
+theorem map_nativeDtype (fields : List (Str × Str)) (h : fields.all (fun f => isNativeDtype f.2) = true) :
+    (fields.map fun f => (f.1, nativeDtype f.2)) = fields := by
+  conv => rhs; rw [← List.map_id fields]
+  apply List.map_congr_left
+  intro f hf
+  have := (List.all_eq_true.mp h) f hf
+  simp [nativeDtype_of_native f.2 this]
+
+theorem data_roundtrip (L : Laser) (h : layersOk L.kind L.layers = true)
+    (hnat : (L.kind != .srr || L.fields.all fun f => isNativeDtype f.2) = true) :
     ∃ d, dataToArray L = .ok d ∧ d.fields = L.fields ∧
       ∀ cal cfg info, construct L.kind d cal cfg info = .ok (mkLaser L.kind L.fields L.layers cal cfg info) := by
   cases hk : L.kind with
@@ -515,8 +530,11 @@ theorem data_roundtrip (L : Laser) (h : layersOk L.kind L.layers = true) :
         simp only [List.all_eq_true, beq_iff_eq]
         intro m hm
         exact (hall m (by simp [hm])).1
+      have hmap : (L.fields.map fun f => (f.1, nativeDtype f.2)) = L.fields := by
+        apply map_nativeDtype
+        simpa [hk] using hnat
       refine ⟨⟨L.fields, (ls.length + 1) :: l.shape, (l :: ls).flatMap (·.cells)⟩, ?_, rfl, ?_⟩
-      · simp only [dataToArray, hk, hl, hshape, if_true]; rfl
+      · simp only [dataToArray, hk, hl, hshape, if_true, hmap]; rfl
       · intro cal cfg info
         have hs := splitLayers_stack L.fields l.shape (l :: ls) hall
         simp only [List.length_cons] at hs
@@ -685,6 +703,66 @@ theorem dictGet_append {β} (a b : List (Str × β)) (k : Str) :
     split
     · rfl
     · exact ih
+
+/-- assigning to a key that is present replaces the value in place -/
+theorem dictInsert_eq_map {β} (b : List (Str × β)) (k : Str) (v : β) (hm : k ∈ keys b) (hn : (keys b).Nodup) :
+    dictInsert b k v = b.map fun kv => if kv.1 = k then (kv.1, v) else kv := by
+  induction b with
+  | nil => simp [keys] at hm
+  | cons kv r ih =>
+    obtain ⟨k0, v0⟩ := kv
+    simp only [keys, List.map_cons, List.nodup_cons] at hn
+    simp only [dictInsert, List.map_cons]
+    by_cases e : k0 = k
+    · subst e
+      simp only [if_true]
+      congr 1
+      conv => lhs; rw [← List.map_id r]
+      apply List.map_congr_left
+      intro kv hkv
+      have : kv.1 ≠ k0 := by
+        intro e; apply hn.1; rw [← e]; exact List.mem_map_of_mem hkv
+      simp [this]
+    · simp only [if_neg e]
+      congr 1
+      apply ih
+      · simp only [keys, List.map_cons, List.mem_cons] at hm
+        rcases hm with hm | hm
+        · exact absurd hm.symm e
+        · exact hm
+      · exact hn.2
+
+/-- `base.update(d)` when every key of `d` is a key of `base`: each entry of `base` keeps its place and
+takes the value `d` holds under its key, if any — the order of `d` plays no part -/
+theorem dictUpdate_eq_map {β} (b d : List (Str × β)) (hb : (keys b).Nodup) (hd : (keys d).Nodup)
+    (hsub : ∀ k ∈ keys d, k ∈ keys b) :
+    dictUpdate b d = b.map fun kv => (kv.1, (dictGet d kv.1).getD kv.2) := by
+  induction d generalizing b with
+  | nil =>
+    simp only [dictUpdate, List.foldl_nil, dictGet, Option.getD_none]
+    conv => lhs; rw [← List.map_id b]
+    apply List.map_congr_left
+    intro kv _
+    rfl
+  | cons kv r ih =>
+    obtain ⟨k, v⟩ := kv
+    simp only [keys, List.map_cons, List.nodup_cons] at hd
+    have hk : k ∈ keys b := hsub k (by simp [keys])
+    have hstep : dictUpdate b ((k, v) :: r) = dictUpdate (dictInsert b k v) r := by
+      simp [dictUpdate]
+    rw [hstep, ih (dictInsert b k v) (by rw [keys_dictInsert_of_mem b k v hk]; exact hb) hd.2
+      (by intro k' hk'; rw [keys_dictInsert_of_mem b k v hk]; exact hsub k' (by simp [keys] at hk' ⊢; right; simpa [keys] using hk'))]
+    rw [dictInsert_eq_map b k v hk hb, List.map_map]
+    apply List.map_congr_left
+    intro kv hkv
+    simp only [Function.comp, dictGet]
+    by_cases e : kv.1 = k
+    · have hnone : dictGet r k = none := by
+        rw [dictGet_eq_none_iff]
+        simpa [keys] using hd.1
+      simp [e, hnone]
+    · have e' : ¬ k = kv.1 := fun h => e h.symm
+      simp [e, e']
 
 /-! ## the info of a loaded laser is a fixpoint of save → load -/
 
@@ -898,35 +976,52 @@ theorem dictGet_map_of_mem (g : Cal → CalArr) (d : List (Str × Cal)) (hn : (k
       rw [if_neg hne]
       exact ih hn.2 hm
 
-/-- the per-element calibration members of a 0.6 / 0.7 file load back to the calibration dict -/
-theorem foldlM_calibrationOf (cal : List (Str × Cal)) (hn : (keys cal).Nodup) (hc : ∀ kc ∈ cal, kc.2.ok = true)
-    (pre suf : List (Str × Cal)) (fs : List (Str × Str)) (hcal : cal = pre ++ suf) (hk : keys fs = keys suf) :
+theorem dictGet_map_val {α β} (g : α → β) (d : List (Str × α)) (k : Str) :
+    dictGet (d.map fun kc => (kc.1, g kc.2)) k = (dictGet d k).map g := by
+  induction d with
+  | nil => rfl
+  | cons kv r ih =>
+    obtain ⟨k0, c0⟩ := kv
+    simp only [List.map_cons, dictGet]
+    split
+    · rfl
+    · exact ih
+
+theorem dictGet_isSome_of_mem {β} (d : List (Str × β)) (k : Str) (h : k ∈ keys d) : ∃ v, dictGet d k = some v := by
+  cases hg : dictGet d k with
+  | none => exact absurd h ((dictGet_eq_none_iff d k).mp hg)
+  | some v => exact ⟨v, rfl⟩
+
+/-- the per-element calibration members of a 0.6 / 0.7 file load back, in element order, to the
+calibration each element had — whatever the order of the calibration dict that was written -/
+theorem foldlM_calibrationOf (cal : List (Str × Cal)) (hc : ∀ kc ∈ cal, kc.2.ok = true)
+    (pre : List (Str × Cal)) (fs : List (Str × Str)) (hfs : (keys fs).Nodup)
+    (hdisj : ∀ k ∈ keys fs, k ∉ keys pre) (hsub : ∀ k ∈ keys fs, k ∈ keys cal) :
     fs.foldlM (fun (d : List (Str × Cal)) nf => do
         let a ← getOr Err.keyError (dictGet (cal.map fun kc => (kc.1, kc.2.toArray kc.2.points.length)) nf.1)
-        pure (dictInsert d nf.1 (Cal.fromArray a))) pre = Except.ok cal := by
-  induction suf generalizing pre fs with
-  | nil =>
-    have : fs = [] := by simpa [keys] using hk
-    subst this
-    simp [hcal]; rfl
-  | cons kc suf' ih =>
-    obtain ⟨k, c⟩ := kc
-    cases fs with
-    | nil => simp [keys] at hk
-    | cons nf fs' =>
-      simp only [keys, List.map_cons, List.cons.injEq] at hk
-      obtain ⟨hk1, hk2⟩ := hk
-      have hmem : (k, c) ∈ cal := by rw [hcal]; simp
-      have hget := dictGet_map_of_mem (fun c => c.toArray c.points.length) cal hn k c hmem
-      have hnot : k ∉ keys pre := by
-        rw [hcal] at hn
-        simp only [keys, List.map_append, List.map_cons] at hn
-        have := (List.nodup_append.mp hn).2.2
-        intro hm
-        exact this _ hm _ (by simp) rfl
-      simp only [List.foldlM_cons, hk1, hget, getOr, bind, Except.bind, pure, Except.pure]
-      rw [cal_roundtrip_aux c c.points.length (hc _ hmem) (Nat.le_refl _), dictInsert_of_not_mem pre k c hnot]
-      exact ih (pre ++ [(k, c)]) fs' (by simp [hcal]) (by simpa [keys] using hk2)
+        pure (dictInsert d nf.1 (Cal.fromArray a))) pre = Except.ok (pre ++ calByName fs cal) := by
+  induction fs generalizing pre with
+  | nil => simp [calByName]; rfl
+  | cons nf fs' ih =>
+    simp only [keys, List.map_cons, List.nodup_cons] at hfs
+    obtain ⟨c, hget⟩ := dictGet_isSome_of_mem cal nf.1 (hsub nf.1 (by simp [keys]))
+    have hmem : (nf.1, c) ∈ cal := dictGet_mem cal nf.1 c hget
+    have hnot : nf.1 ∉ keys pre := hdisj nf.1 (by simp [keys])
+    have hg := dictGet_map_val (fun c : Cal => c.toArray c.points.length) cal nf.1
+    rw [hget, Option.map_some] at hg
+    simp only [List.foldlM_cons, hg, getOr, bind, Except.bind, pure, Except.pure]
+    rw [cal_roundtrip_aux c c.points.length (hc _ hmem) (Nat.le_refl _), dictInsert_of_not_mem pre nf.1 c hnot]
+    have := ih (pre ++ [(nf.1, c)]) hfs.2
+      (by
+        intro k hk hk'
+        simp only [keys, List.map_append, List.map_cons, List.map_nil, List.mem_append, List.mem_singleton] at hk'
+        rcases hk' with hk' | hk'
+        · exact hdisj k (by simp only [keys, List.map_cons, List.mem_cons]; right; exact hk) (by simpa [keys] using hk')
+        · subst hk'; exact hfs.1 (by simpa [keys] using hk))
+      (by intro k hk; exact hsub k (by simp only [keys, List.map_cons, List.mem_cons]; right; simpa [keys] using hk))
+    simp only [getOr, bind, Except.bind, pure, Except.pure] at this
+    rw [this]
+    simp [calByName, hget]
 
 theorem cmpGe_cases (va vb : Str) (h : cmpGe va vb = true) : ∃ r, compareVersion va vb = .ok r ∧ r ≠ -1 := by
   unfold cmpGe at h
@@ -944,16 +1039,142 @@ theorem cmpLt_cases (va vb : Str) (h : cmpLt va vb = true) : compareVersion va v
 
 /-! ## chains -/
 
+/-- what `Laser.ok` says, one fact per field -/
+structure OkFacts (L : Laser) : Prop where
+  ne : L.fields ≠ []
+  nul : ∀ k ∈ keys L.fields, noNulEnd k = true
+  nodup : (keys L.fields).Nodup
+  cnodup : (keys L.cal).Nodup
+  csub : ∀ k ∈ keys L.cal, k ∈ keys L.fields
+  fsub : ∀ k ∈ keys L.fields, k ∈ keys L.cal
+  cal : ∀ kc ∈ L.cal, kc.2.ok = true
+  kind : L.config.isSRR = (L.kind == .srr)
+  cfg : L.config.ok = true
+  layers : layersOk L.kind L.layers = true
+  native : (L.kind != .srr || L.fields.all fun f => isNativeDtype f.2) = true
+  info : noNulEnd (packInfoRaw L.info) = true
+
+theorem okFacts_iff (L : Laser) : L.ok = true ↔ OkFacts L := by
+  simp only [Laser.ok, Bool.and_eq_true, decide_eq_true_eq, beq_iff_eq, List.all_eq_true, Bool.not_eq_true',
+    List.isEmpty_eq_false_iff]
+  constructor
+  · rintro ⟨⟨⟨⟨⟨⟨⟨⟨⟨hne, hnul⟩, hnodup⟩, ⟨hcn, hcs⟩, hfs⟩, hcal⟩, hkind⟩, hcfg⟩, hlayers⟩, hnat⟩, hinfo⟩
+    exact ⟨hne, hnul, hnodup, hcn, hcs, hfs, hcal, hkind, hcfg, hlayers, hnat, hinfo⟩
+  · rintro ⟨hne, hnul, hnodup, hcn, hcs, hfs, hcal, hkind, hcfg, hlayers, hnat, hinfo⟩
+    exact ⟨⟨⟨⟨⟨⟨⟨⟨⟨hne, hnul⟩, hnodup⟩, ⟨hcn, hcs⟩, hfs⟩, hcal⟩, hkind⟩, hcfg⟩, hlayers⟩, hnat⟩, hinfo⟩
+
+theorem okFacts (L : Laser) (h : L.ok = true) : OkFacts L := (okFacts_iff L).mp h
+
 /-- a laser with an element has a calibration entry (`Laser.ok` ties the two key lists) -/
-theorem cal_nonempty (L : Laser) (hne : (!L.fields.isEmpty) = true) (hkeys : keys L.cal = keys L.fields) :
-    L.cal.isEmpty = false := by
-  cases hc : L.cal with
+theorem cal_nonempty (L : Laser) (F : OkFacts L) : L.cal.isEmpty = false := by
+  cases hf : L.fields with
+  | nil => exact absurd hf F.ne
+  | cons a b =>
+    have := F.fsub a.1 (by simp [hf, keys])
+    cases hc : L.cal with
+    | nil => simp [hc, keys] at this
+    | cons _ _ => rfl
+
+theorem keys_calByName (fields : List (Str × Str)) (cal : List (Str × Cal)) : keys (calByName fields cal) = keys fields := by
+  simp [keys, calByName, List.map_map, Function.comp_def]
+
+/-- looking an element up in the by-name dict gives what the original dict holds under that name -/
+theorem dictGet_calByName (fields : List (Str × Str)) (cal : List (Str × Cal)) (k : Str) (hk : k ∈ keys fields) :
+    dictGet (calByName fields cal) k = some ((dictGet cal k).getD Cal.default) := by
+  induction fields with
+  | nil => simp [keys] at hk
+  | cons f r ih =>
+    simp only [calByName, List.map_cons, dictGet]
+    by_cases e : f.1 = k
+    · simp [e]
+    · simp only [if_neg e]
+      apply ih
+      simp only [keys, List.map_cons, List.mem_cons] at hk
+      rcases hk with hk | hk
+      · exact absurd hk.symm e
+      · exact hk
+
+theorem dictGet_calByName_none (fields : List (Str × Str)) (cal : List (Str × Cal)) (k : Str) (hk : k ∉ keys fields) :
+    dictGet (calByName fields cal) k = none := by
+  rw [dictGet_eq_none_iff, keys_calByName]; exact hk
+
+/-- a calibration dict that already is in element order is its own by-name form -/
+theorem calByName_of_ordered (fields : List (Str × Str)) (cal : List (Str × Cal)) (hk : keys cal = keys fields)
+    (hn : (keys cal).Nodup) : calByName fields cal = cal := by
+  induction cal generalizing fields with
   | nil =>
-    rw [hc] at hkeys
-    cases hf : L.fields with
-    | nil => simp [hf] at hne
-    | cons a b => simp [hf, keys] at hkeys
-  | cons a b => rfl
+    have : fields = [] := by simpa [keys] using hk.symm
+    subst this; rfl
+  | cons kc r ih =>
+    obtain ⟨k, c⟩ := kc
+    cases fields with
+    | nil => simp [keys] at hk
+    | cons f fs =>
+      simp only [keys, List.map_cons, List.cons.injEq] at hk
+      obtain ⟨hk1, hk2⟩ := hk
+      subst hk1
+      simp only [keys, List.map_cons, List.nodup_cons] at hn
+      simp only [calByName, List.map_cons, dictGet, if_true, Option.getD_some]
+      congr 1
+      have := ih fs (by simpa [keys] using hk2) hn.2
+      simp only [calByName] at this
+      refine Eq.trans ?_ this
+      apply List.map_congr_left
+      intro f' hf'
+      have hne : ¬ f.1 = f'.1 := by
+        intro e
+        apply hn.1
+        have : f'.1 ∈ List.map (fun x => x.1) fs := List.mem_map_of_mem hf'
+        rw [e]
+        have hk2' : List.map (fun x => x.1) r = List.map (fun x => x.1) fs := by simpa [keys] using hk2
+        rw [hk2']; exact this
+      simp [hne]
+
+theorem calByName_idem (fields : List (Str × Str)) (cal : List (Str × Cal)) (hn : (keys fields).Nodup) :
+    calByName fields (calByName fields cal) = calByName fields cal :=
+  calByName_of_ordered fields _ (keys_calByName fields cal) (by rw [keys_calByName]; exact hn)
+
+/-- `Laser.__init__`: a default calibration per element updated by a dict with exactly the elements as
+keys gives the by-name dict, for every order of that dict -/
+theorem mkLaser_calByName (L : Laser) (F : OkFacts L) (info : Info) :
+    mkLaser L.kind L.fields L.layers L.cal L.config info
+      = { L with cal := calByName L.fields L.cal, info := info } := by
+  unfold mkLaser
+  have hb : keys (L.fields.map fun f => (f.1, Cal.default)) = keys L.fields := by
+    simp [keys, List.map_map, Function.comp_def]
+  rw [dictUpdate_eq_map _ _ (by rw [hb]; exact F.nodup) F.cnodup (by intro k hk; rw [hb]; exact F.csub k hk)]
+  simp only [List.map_map, Function.comp_def, calByName]
+
+theorem cal_default_ok : Cal.default.ok = true := by decide
+
+/-- the by-name form of a laser inside the quantifier is inside the quantifier -/
+theorem ok_calByName (L : Laser) (hL : L.ok = true) :
+    ({ L with cal := calByName L.fields L.cal } : Laser).ok = true := by
+  have F := okFacts L hL
+  apply (okFacts_iff _).mpr
+  refine ⟨F.ne, F.nul, F.nodup, ?_, ?_, ?_, ?_, F.kind, F.cfg, F.layers, F.native, F.info⟩
+  · show (keys (calByName L.fields L.cal)).Nodup
+    rw [keys_calByName]; exact F.nodup
+  · intro k hk
+    have hk' : k ∈ keys (calByName L.fields L.cal) := hk
+    rwa [keys_calByName] at hk'
+  · intro k hk
+    show k ∈ keys (calByName L.fields L.cal)
+    rw [keys_calByName]; exact hk
+  · intro kc hkc
+    have hkc' : kc ∈ calByName L.fields L.cal := hkc
+    simp only [calByName, List.mem_map] at hkc'
+    obtain ⟨f, _, rfl⟩ := hkc'
+    cases h : dictGet L.cal f.1 with
+    | none => simpa using cal_default_ok
+    | some c => simpa using F.cal _ (dictGet_mem L.cal f.1 c h)
+
+/-- the packed table of a calibration dict in any order unpacks to that dict -/
+theorem unpack_pack_of_facts (L : Laser) (F : OkFacts L)
+    (hrt : ∀ d : List (Str × Cal), (keys d).Nodup → (∀ kc ∈ d, noNulEnd kc.1 = true) → (∀ kc ∈ d, kc.2.ok = true) →
+      unpackCalibration (packCalibration d) = d) :
+    unpackCalibration (packCalibration L.cal) = L.cal :=
+  hrt L.cal F.cnodup (fun kc hkc => F.nul kc.1 (F.csub kc.1 (List.mem_map_of_mem hkc))) F.cal
 
 theorem ok_with_info (L : Laser) (X : Info) (hL : L.ok = true) (hX : noNulEnd (packInfoRaw X) = true) :
     ({ L with info := X } : Laser).ok = true := by
@@ -977,19 +1198,20 @@ theorem generations_succ (fl : Rat → Rat) (ver time : Str) (p : PathInfo) (n :
   simp only [generations]
   cases save fl ver time L <;> rfl
 
-/-- save → load of a laser whose info is that of a loaded laser only moves `File Path` to the end -/
+/-- save → load of a laser whose info is that of a loaded laser (and whose calibration dict is in
+element order, as that of a loaded laser is) only moves `File Path` to the end -/
 theorem generations_good (fl : Rat → Rat) (p : PathInfo) (ver time : Str)
     (hls : ∀ L : Laser, L.ok = true → (save fl ver time L >>= load fl p) = .ok (normalise p ver L))
-    (L : Laser) (hL : L.ok = true) (n : Nat) (X : Info) (g : Good p ver X) :
+    (L : Laser) (hL : L.ok = true) (hord : calByName L.fields L.cal = L.cal) (n : Nat) (X : Info) (g : Good p ver X) :
     generations fl ver time p (n + 1) { L with info := X } = .ok { L with info := nextInfo p X } := by
   induction n generalizing X with
   | zero =>
     rw [generations_succ, hls _ (ok_with_info L X hL (noNulEnd_packInfoRaw X g.nonul))]
-    simp only [normalise, finish_spec_good p ver X g]
+    simp only [normalise, finish_spec_good p ver X g, hord]
     rfl
   | succ n ih =>
     rw [generations_succ, hls _ (ok_with_info L X hL (noNulEnd_packInfoRaw X g.nonul))]
-    simp only [normalise, finish_spec_good p ver X g]
+    simp only [normalise, finish_spec_good p ver X g, hord]
     have := ih (nextInfo p X) (good_next p ver X g)
     rw [nextInfo_idem] at this
     exact this
@@ -1124,19 +1346,26 @@ theorem specOld_of_not_cmpGe (b : Bool) (p : PathInfo) (ver : Str) (L : Laser) (
     have : r = -1 := by simpa [hc] using h
     simp [this]
 
-theorem saveV06_ok (fl : Rat → Rat) (ver : Str) (L : Laser) (hl : layersOk L.kind L.layers = true) :
+theorem saveV06_ok (fl : Rat → Rat) (ver : Str) (L : Laser) (hl : layersOk L.kind L.layers = true)
+    (hnat : (L.kind != .srr || L.fields.all fun f => isNativeDtype f.2) = true) :
     ∃ f, saveV06 fl ver L = .ok f ∧ f.header = none ∧ f.version = some (stripNul ver) := by
-  obtain ⟨d, hd, _, _⟩ := data_roundtrip L hl
+  obtain ⟨d, hd, _, _⟩ := data_roundtrip L hl hnat
   simp only [saveV06, hd, bind, Except.bind, pure, Except.pure]
   exact ⟨_, rfl, rfl, rfl⟩
 
-theorem saveV07_ok (fl : Rat → Rat) (ver : Str) (L : Laser) (hl : layersOk L.kind L.layers = true) :
+theorem saveV07_ok (fl : Rat → Rat) (ver : Str) (L : Laser) (hl : layersOk L.kind L.layers = true)
+    (hnat : (L.kind != .srr || L.fields.all fun f => isNativeDtype f.2) = true) :
     ∃ f, saveV07 fl ver L = .ok f ∧ f.header = none ∧ f.version = some (stripNul ver) := by
-  obtain ⟨d, hd, _, _⟩ := data_roundtrip L hl
+  obtain ⟨d, hd, _, _⟩ := data_roundtrip L hl hnat
   simp only [saveV07, hd, bind, Except.bind, pure, Except.pure]
   exact ⟨_, rfl, rfl, rfl⟩
 
 theorem layersOk_of_ok (L : Laser) (h : L.ok = true) : layersOk L.kind L.layers = true := by
+  simp only [Laser.ok, Bool.and_eq_true] at h
+  exact h.1.1.2
+
+theorem native_of_ok (L : Laser) (h : L.ok = true) :
+    (L.kind != .srr || L.fields.all fun f => isNativeDtype f.2) = true := by
   simp only [Laser.ok, Bool.and_eq_true] at h
   exact h.1.2
 
